@@ -10,6 +10,7 @@ package verifrt
 
 import (
 	"fmt"
+	"time"
 	"unsafe"
 )
 
@@ -132,6 +133,19 @@ func Lock(m *MutexState) {
 	}
 	m.holder = running + 1
 	cur.Threads[running].Held++
+}
+
+// TryLock takes the mutex if it is free (the caller has already passed a scheduling point).
+func TryLock(m *MutexState) bool {
+	if cur == nil || running < 0 {
+		return true
+	}
+	if m.holder != 0 || m.readers != 0 {
+		return false
+	}
+	m.holder = running + 1
+	cur.Threads[running].Held++
+	return true
 }
 
 func Unlock(m *MutexState) {
@@ -273,7 +287,12 @@ func Run(bodies []func(), maxSteps int, choose func(step int, enabled []int, run
 		last = en[k]
 		running = last
 		e.Threads[last].resume <- true
-		<-e.yield
+		select {
+		case <-e.yield:
+		case <-time.After(120 * time.Second):
+			// the running thread is blocked on something the scheduler does not control: harness error
+			panic("verifrt: a logical thread did not reach a scheduling point within 120 s (blocked on an unmodelled primitive?)")
+		}
 		running = -1
 	}
 	// abort whatever is still parked (deadlock / horizon)
